@@ -359,7 +359,10 @@ SOp(w, ev) ==
                        \/ Has(ev, "ress_w") /\ \E i \in 2..Len(ev.ress_w) :
                              ev.ress_w[i] # (IF exp = Absent \/ ev.val < 0 THEN exp ELSE <<exp[1], ev.val>>)
       \* the lending join's lookup by entity is also part of C06, restricted lookups of C13
-      props == {prop} \cup (IF ev.path \in {"lend_get", "lend2_get", "lend_get_mut", "lentry_get", "lmaybe_get"} THEN {"C06"} ELSE {})
+      \* (the items of a join over a restricted storage are join items: what is reached through one, and what a
+      \* mutation through one changes, is part of C06 too)
+      props == {prop} \cup (IF ev.path \in {"lend_get", "lend2_get", "lend_get_mut", "lentry_get", "lmaybe_get",
+                                             "r_get_other", "rl_get_other", "rm_get_other", "rm_get_other_mut", "rm_get_other_mut_replace"} THEN {"C06"} ELSE {})
                       \cup (IF ev.path \in {"r_get_other", "rl_get_other", "rm_get_other", "rm_get_other_mut", "rm_get_other_mut_replace"} THEN {"C13"} ELSE {})
       mk(w2, exp) == [w |-> w2, f |-> IF bad(exp) THEN {F(p, "storage op result", <<ev.cls, ev.path, s, h, exp>>) : p \in props} ELSE {}]
       viaEntry == ev.path \in {"entry_replace", "entry_insert"}
@@ -472,7 +475,11 @@ WOp(w, ev) ==
                 Wr(ww, i) == IF i > Len(mem) \/ i > Len(ev.items) THEN ww
                              ELSE IF ev.items[i][3] THEN Wr(DoWrite(ww, s, mem[i], ev.items[i][4]).w, i + 1)
                              ELSE Wr(ww, i + 1)
-            IN [w |-> Wr(w, 1), f |-> flag(got # exp, "items of restricted join", exp)]
+                \* (5th element, where recorded: the item's own entity - the handle the entities member of the join
+                \* yielded - looked up through the item's get_other: the value the item itself carries)
+                ownBad == {i \in 1..Len(ev.items) : Len(ev.items[i]) >= 5 /\ ev.items[i][5] # ev.items[i][2]}
+            IN [w |-> Wr(w, 1), f |-> flag(got # exp, "items of restricted join", exp)
+                                      \cup flag(ownBad # {}, "an item of a restricted join does not find its own entity (positions)", ownBad)]
        [] ev.k = "slice" ->
             \* (after a caught destructor panic the raw slot view may show leaked values - but never a value
             \* that has been destroyed or handed back)
